@@ -174,7 +174,13 @@ pub fn random_trace(seed: u64) -> Trace {
         match rng.below(10) {
             0..=5 => ExprRef::Pool(*rng.pick(ID_EXPRS)),
             6 | 7 => ExprRef::Feedback,
-            8 => ExprRef::Pool(rng.below(pools::VALID_EXPRS.len())),
+            8 => {
+                if rng.chance(0.6) {
+                    ExprRef::Corpus(rng.below(pools::corpus().len()))
+                } else {
+                    ExprRef::Pool(rng.below(pools::VALID_EXPRS.len()))
+                }
+            }
             _ => ExprRef::Bad(rng.below(pools::INVALID_EXPRS.len())),
         }
     };
